@@ -360,14 +360,18 @@ func RunC13(ctx *core.Ctx) *core.Violation {
 	defCtor := t.Chance(1, 12)
 	m.shortcut = t.Chance(1, 16)
 	n := drawLen(t)
+	if t.Chance(1, 14) {
+		n = t.Range(1001, 12000) // long enough to refill the default 4 KiB buffer several times
+		ctx.Count("probe_long_input")
+	}
 	alphabet := t.Draw(3)
 	data := genData(t, n, alphabet)
 	plan := faultio.DrawPlan(t, n, t.Chance(1, 2))
 	discipline := t.Draw(5)
 	delay := t.Range(1, 4)
 	allowExt := t.Chance(1, 4)
-	maxLA := t.Pick(1, 2, 4, 9, 40)
-	maxTok := t.Pick(1, 3, 8, 20, 70)
+	maxLA := t.Pick(1, 2, 4, 9, 40, 200)
+	maxTok := t.Pick(1, 3, 8, 20, 70, 400)
 	stopN := t.Pick(8, 32, 128)
 	drain := t.Chance(1, 2)
 	// swarm: op mask
@@ -628,7 +632,14 @@ func runC13Memory(ctx *core.Ctx) *core.Violation {
 	maxTok := t.Pick(1, 4, 16, 40)
 	maxLA := t.Pick(0, 1, 4)
 	useShiftLen := t.Chance(1, 2)
-	bound := 32*(size+maxTok+maxLA) + 1024
+	// Free discipline: every token is freed, either at once, with a constant lag of `lag`
+	// tokens, or in batches of `lag`+1 tokens; at most lag+1 tokens are ever outstanding.
+	lagKind := t.Weighted(2, 1, 1)
+	lag := 0
+	if lagKind != 0 {
+		lag = t.Range(1, 3)
+	}
+	bound := 32*(size+(lag+1)*maxTok+maxLA) + 1024
 	L := 64 * bound
 	capL := 48 << 10
 	if ctx.Env["tier"] == "thorough" {
@@ -640,7 +651,7 @@ func runC13Memory(ctx *core.Ctx) *core.Violation {
 	if L < 16*bound {
 		// stream too short to tell a leak from the constant: use a smaller buffer
 		size = 16
-		bound = 32*(size+maxTok+maxLA) + 1024
+		bound = 32*(size+(lag+1)*maxTok+maxLA) + 1024
 		L = min(capL, 64*bound)
 	}
 	src := t.Sub()
@@ -658,13 +669,19 @@ func runC13Memory(ctx *core.Ctx) *core.Violation {
 	m.facts = fmt.Sprintf("family=memory size=%d", size)
 	m.z = buffer.NewStreamLexerSize(m.rd, size)
 	m.initProbes()
-	ctx.Describe("C13 memory family: size=%d maxTok=%d maxLA=%d stream=%d bytes bound=%d chunk=%d/%d freeViaShiftLen=%v", size, maxTok, maxLA, L, bound, plan.Chunk, plan.Fixed, useShiftLen)
+	ctx.Describe("C13 memory family: size=%d maxTok=%d maxLA=%d stream=%d bytes bound=%d chunk=%d/%d freeViaShiftLen=%v freeDiscipline=%d lag=%d", size, maxTok, maxLA, L, bound, plan.Chunk, plan.Fixed, useShiftLen, lagKind, lag)
+	ctx.SigAdd(uint64(lagKind*8 + lag))
+	if lagKind != 0 {
+		ctx.Count("probe_memory_family_lagged_free")
+	}
+	var owed []int // amounts not yet passed to Free, oldest first
 	ctx.NonT = true
 	ctx.Count("probe_memory_family_runs")
 
 	ops := t.Sub()
 	nextSample := L / 8
 	var atHalf, last int
+	var samples []int
 	for m.pos < L {
 		k := 1 + ops.Draw(maxTok)
 		for j := 0; j < k && m.pos < L; j++ {
@@ -692,11 +709,30 @@ func runC13Memory(ctx *core.Ctx) *core.Violation {
 			if sl != n {
 				return m.viol("shiftlen-wrong", "memory family: ShiftLen() = %d after a shift of %d bytes (abs %d)", sl, n, m.pos)
 			}
-			m.z.Free(sl)
-		} else {
-			m.z.Free(n)
 		}
-		m.freed += n
+		owed = append(owed, n)
+		switch lagKind {
+		case 0:
+			m.z.Free(n)
+			m.freed += n
+			owed = owed[:0]
+		case 1: // constant lag: free the token shifted `lag` shifts ago
+			if len(owed) > lag {
+				m.z.Free(owed[0])
+				m.freed += owed[0]
+				owed = owed[1:]
+			}
+		case 2: // batches of lag+1 tokens
+			if len(owed) > lag {
+				sum := 0
+				for _, x := range owed {
+					sum += x
+				}
+				m.z.Free(sum)
+				m.freed += sum
+				owed = owed[:0]
+			}
+		}
 		if m.pos >= nextSample {
 			nextSample += L / 8
 			h, ok := m.memHeld()
@@ -710,7 +746,8 @@ func runC13Memory(ctx *core.Ctx) *core.Violation {
 			if int64(h)*1000/int64(bound) > ctx.C["max_held_permille_of_bound"] {
 				ctx.C["max_held_permille_of_bound"] = int64(h) * 1000 / int64(bound)
 			}
-			if h > bound {
+			samples = append(samples, h)
+			if lagKind == 0 && h > bound {
 				return m.viol("memory-unbounded", "lexer holds %d bytes after %d of %d stream bytes with every token freed; bound 32*(size %d + token %d + lookahead %d)+1024 = %d", h, m.pos, L, size, maxTok, maxLA, bound)
 			}
 			if atHalf == 0 && m.pos >= L/2 {
@@ -718,8 +755,17 @@ func runC13Memory(ctx *core.Ctx) *core.Violation {
 			}
 		}
 	}
-	ctx.Add("probe_memory_samples", 8)
+	ctx.Add("probe_memory_samples", int64(len(samples)))
 	_ = last
+	// "instead of growing with the stream": whatever the constant is (with a lagged Free
+	// discipline and tiny reader chunks the pool legitimately keeps dozens of small blocks),
+	// the second half of the stream must not add to it. A leak grows linearly: end ~ 2 x half.
+	if len(samples) >= 8 {
+		half, end := samples[3], samples[len(samples)-1]
+		if end > half+half/2+512 {
+			return m.viol("memory-grows-with-stream", "lexer holds %d bytes at the end of a %d-byte stream but held %d at the half (samples at each eighth: %v) although every token was freed (discipline %d, lag %d)", end, L, half, samples, lagKind, lag)
+		}
+	}
 	if m.z.Peek(0) != 0 || m.z.Err() != io.EOF {
 		return m.viol("err-wrong", "memory family: at the end Peek(0)=%#x Err()=%v", m.z.Peek(0), m.z.Err())
 	}
